@@ -1256,8 +1256,11 @@ def obs_stress(args):
         for th in ths:
             th.start()
         deadline, ndone, since = time.monotonic() + 1200, -1, time.monotonic()
-        while any(th.is_alive() for th in ths) and time.monotonic() < deadline:
-            [th for th in ths if th.is_alive()][0].join(timeout=0.5)
+        while time.monotonic() < deadline:
+            alive = [th for th in ths if th.is_alive()]
+            if not alive:
+                break
+            alive[0].join(timeout=0.5)
             n = sum(1 for o in out for x in o if x is not None)
             if n != ndone:
                 ndone, since = n, time.monotonic()
